@@ -94,6 +94,9 @@ func (s *simSender) SendContributionToParent(view hotstuff.View, sig hotstuff.Qu
 		f(s.nd, view, sig)
 	}
 	s.w.send(s.nd, parent, "contrib", c)
+	if s.w.adv != nil {
+		s.w.adv.onContribution(s.nd, view, sig)
+	}
 }
 
 func (s *simSender) targets() []hotstuff.ID {
